@@ -4,7 +4,7 @@
 // A Go panic that nobody recovers kills the whole process, so every fault injection runs in a
 // SUBPROCESS: `gs-panics run` re-executes its own binary (`gs-panics child …`) once per op
 //
-//	inject <side> <kind> <block> <n> <pre> <ls> [<val>]
+//	inject <side> <kind> <block> <n> <pre> <ls> [<val> [<lim>]]
 //
 // and the child runs a real two-peer exchange (impl.New on both ends of a libp2p mocknet, in-memory
 // link systems) in which the user-supplied function of kind <kind> on side <side> panics when it is
@@ -21,6 +21,12 @@
 //	       rt-nilmap, rt-nilptr, rt-index (genuine runtime.Error panics: write to a nil map, nil
 //	       dereference, index out of range) | struct (a comparable struct value)
 //
+//	lim    wide (default): default worker counts.  tight: the responder runs ONE worker with at most
+//	       one task in progress per peer (MaxInProgressIncomingRequests(1),
+//	       MaxInProgressIncomingRequestsPerPeer(1)) and, for requestor-side injections, the requestor
+//	       runs one worker too (MaxInProgressOutgoingRequests(1)): a task slot that the failed
+//	       request does not give back starves every later request
+//
 // A second op, `handler <nil|str|err|rt|struct> <cb|nocb>`, calls panics.MakeHandler directly (in
 // process) on such a value, with and without a callback, and prints what it returned and passed on.
 //
@@ -30,16 +36,20 @@
 //
 // Output line per op (identical in format to the Lean model's, `gsm-panics`):
 //
-//	survived=<0|1> fired=<0|1> err=<none|panic|failed|hang|other> cb=<k> val=<0|1|-> sibling=<0|1>
+//	survived=<0|1> fired=<0|1> err=<none|panic|failed|hang|other> cb=<k> val=<0|1|-> sibling=<0|1> late=<0|1> leak=<0|1>
 //
-// survived: the child process exited normally (a crashed child prints `survived=0 fired=1 err=- cb=- val=- sibling=-`);
+// survived: the child process exited normally (a crashed child prints `survived=0 fired=1 err=- cb=- val=- sibling=- late=- leak=-`);
 // fired: the injected function was actually reached and panicked; err: what the requesting client
 // got on the target request's error channel (panic = a panics.RecoveredPanicErr carrying the
 // injected object, failed = the responder terminated the request with a failure status);
 // cb: number of panic-callback invocations on the injected side; val: every one of them carried the
 // very value that was passed to panic, and so does the RecoveredPanicErr where it is visible
 // in-process (`-` when nothing fired);
-// sibling: both sibling requests delivered every block of their chains without error.
+// sibling: both sibling requests delivered every block of their chains without error; late: the
+// request submitted AFTER the target terminated (same peers, same link system) completed fully;
+// leak: once everything has drained, some resource is still held on either node - Stats() shows an
+// active or pending task or allocated response memory, or PeerState() still lists a request /
+// reports an inconsistency (Diagnostics).
 //
 // The oracle is written from the property sentence, not from the model: whenever the injected
 // panic fired - whatever kind of value it carried - the process must survive, the target request
@@ -166,10 +176,11 @@ type op struct {
 	pre        int
 	ls         string
 	val        string
+	lim        string
 }
 
 func (o op) String() string {
-	return fmt.Sprintf("inject %s %s %d %d %d %s %s", o.side, o.kind, o.block, o.n, o.pre, o.ls, o.val)
+	return fmt.Sprintf("inject %s %s %d %d %d %s %s %s", o.side, o.kind, o.block, o.n, o.pre, o.ls, o.val, o.lim)
 }
 
 // reachedPre picks, for a block index, a local prefix length under which the injected function is
@@ -212,6 +223,15 @@ func gen(seed int64, count int, tier string, w *bufio.Writer) {
 	// the kinds of panic VALUES are spread over the injections (round robin), not multiplied
 	vi := 0
 	nextVal := func() string { vi++; return Vals[(vi-1)%len(Vals)] }
+	// two of three injections run under tight limits (one worker, one task per peer)
+	li := 0
+	nextLim := func() string {
+		li++
+		if li%3 == 0 {
+			return "wide"
+		}
+		return "tight"
+	}
 	// a few direct calls of panics.MakeHandler (in process, cheap)
 	fmt.Fprintf(w, "case g-handler\n")
 	for _, v := range []string{"nil", "str", "err", "rt", "struct"} {
@@ -226,7 +246,7 @@ func gen(seed int64, count int, tier string, w *bufio.Writer) {
 				var ops []op
 				vi = si*len(Kinds) + ki // rotate the starting value per (side, kind)
 				for _, k := range blocks {
-					ops = append(ops, op{side, kind, k, n, pickPre(r, side, kind, k, n), ls, nextVal()})
+					ops = append(ops, op{side, kind, k, n, pickPre(r, side, kind, k, n), ls, nextVal(), nextLim()})
 				}
 				emit(ops)
 				emitted++
@@ -239,7 +259,7 @@ func gen(seed int64, count int, tier string, w *bufio.Writer) {
 				}
 				var ops []op
 				for _, v := range Vals {
-					ops = append(ops, op{side, kind, 1, n, pre, "def", v})
+					ops = append(ops, op{side, kind, 1, n, pre, "def", v, nextLim()})
 				}
 				emit(ops)
 			}
@@ -254,7 +274,7 @@ func gen(seed int64, count int, tier string, w *bufio.Writer) {
 		var ops []op
 		for j := 0; j < 3; j++ {
 			k := r.Intn(n)
-			ops = append(ops, op{side, kind, k, n, pickPre(r, side, kind, k, n), ls, Vals[r.Intn(len(Vals))]})
+			ops = append(ops, op{side, kind, k, n, pickPre(r, side, kind, k, n), ls, Vals[r.Intn(len(Vals))], nextLim()})
 		}
 		emit(ops)
 	}
@@ -337,12 +357,19 @@ type result struct {
 }
 
 func parseOp(t []string) (op, bool) {
-	if (len(t) != 7 && len(t) != 8) || t[0] != "inject" {
+	if len(t) < 7 || len(t) > 9 || t[0] != "inject" {
 		return op{}, false
 	}
 	val := "str" // older case files have no value token
-	if len(t) == 8 {
+	if len(t) >= 8 {
 		val = t[7]
+	}
+	lim := "wide"
+	if len(t) == 9 {
+		lim = t[8]
+	}
+	if lim != "wide" && lim != "tight" {
+		return op{}, false
 	}
 	k, e1 := strconv.Atoi(t[3])
 	n, e2 := strconv.Atoi(t[4])
@@ -350,7 +377,7 @@ func parseOp(t []string) (op, bool) {
 	if e1 != nil || e2 != nil || e3 != nil || k < 0 || n < 1 || n > 64 || k >= n || pre < 0 || pre > n {
 		return op{}, false
 	}
-	o := op{t[1], t[2], k, n, pre, t[6], val}
+	o := op{t[1], t[2], k, n, pre, t[6], val, lim}
 	if !contains(Vals, val) {
 		return op{}, false
 	}
@@ -375,7 +402,7 @@ func runOne(o op) result {
 	var res result
 	ctx, cancel := context.WithTimeout(context.Background(), childTimeout)
 	defer cancel()
-	cmd := exec.CommandContext(ctx, os.Args[0], "child", o.side, o.kind, strconv.Itoa(o.block), strconv.Itoa(o.n), strconv.Itoa(o.pre), o.ls, o.val)
+	cmd := exec.CommandContext(ctx, os.Args[0], "child", o.side, o.kind, strconv.Itoa(o.block), strconv.Itoa(o.n), strconv.Itoa(o.pre), o.ls, o.val, o.lim)
 	var stdout, stderr bytes.Buffer
 	cmd.Stdout = &stdout
 	cmd.Stderr = &stderr
@@ -396,7 +423,7 @@ func runOne(o op) result {
 	tail = strings.ReplaceAll(tail, "\n", " | ")
 	if err != nil || resLine == "" {
 		// the child died.  A Go panic exits with status 2 and prints "panic: <obj>" on stderr.
-		res.line = fmt.Sprintf("survived=0 fired=%d err=- cb=- val=- sibling=-", b2i(fired))
+		res.line = fmt.Sprintf("survived=0 fired=%d err=- cb=- val=- sibling=- late=- leak=-", b2i(fired))
 		switch {
 		case ctx.Err() != nil:
 			res.fails = append(res.fails, [2]string{"harness-error", "child timed out: " + o.String()})
@@ -417,7 +444,7 @@ func runOne(o op) result {
 			f[kv[:i]] = kv[i+1:]
 		}
 	}
-	res.line = fmt.Sprintf("survived=1 fired=%s err=%s cb=%s val=%s sibling=%s", f["fired"], f["err"], f["cb"], f["val"], f["sibling"])
+	res.line = fmt.Sprintf("survived=1 fired=%s err=%s cb=%s val=%s sibling=%s late=%s leak=%s", f["fired"], f["err"], f["cb"], f["val"], f["sibling"], f["late"], f["leak"])
 	detail := resLine
 	// ---- oracle, from the property sentence
 	if f["fired"] == "1" {
@@ -448,6 +475,18 @@ func runOne(o op) result {
 		}
 		res.cov = append(res.cov, "outcome:not-reached")
 	}
+	if f["late"] != "1" {
+		res.fails = append(res.fails, [2]string{"late-request-" + tag, fmt.Sprintf("a request submitted after the target request had terminated did not complete (limits %s; %s): %s", o.lim, o.String(), detail)})
+	}
+	if f["leak"] != "0" {
+		what := f["leakwhat"]
+		if f["fired"] == "1" {
+			res.fails = append(res.fails, [2]string{"leak-after-panic-" + what + "-" + tag, fmt.Sprintf("after the recovered panic and after everything drained, %s is still held (%s): %s", what, o.String(), detail)})
+		} else {
+			res.fails = append(res.fails, [2]string{"harness-error", fmt.Sprintf("resources held although nothing was injected: %s (%s): %s", what, o.String(), detail)})
+		}
+	}
+	res.cov = append(res.cov, "lim:"+o.lim)
 	if f["sibling"] != "1" {
 		res.fails = append(res.fails, [2]string{"sibling-" + tag, fmt.Sprintf("a sibling request did not complete (%s): %s", o.String(), detail)})
 	}
@@ -883,6 +922,56 @@ func collect(ctx context.Context, progress <-chan graphsync.ResponseProgress, er
 	return r
 }
 
+// heldResource names the first resource still held on either node ("" = none): task-queue entries
+// and allocated response memory from Stats(), tracked requests and inconsistencies from PeerState().
+func heldResource(requestor, responder graphsync.GraphExchange, reqPeer, respPeer peer.ID) string {
+	rs, ps := requestor.Stats(), responder.Stats()
+	type ps_ interface {
+		PeerState(p peer.ID) gsimpl.PeerState
+	}
+	switch {
+	case rs.OutgoingRequests.Active != 0:
+		return "requestor-task-active"
+	case rs.OutgoingRequests.Pending != 0:
+		return "requestor-task-pending"
+	case ps.IncomingRequests.Active != 0:
+		return "responder-task-active"
+	case ps.IncomingRequests.Pending != 0:
+		return "responder-task-pending"
+	case ps.OutgoingResponses.TotalAllocatedAllPeers != 0 || rs.OutgoingResponses.TotalAllocatedAllPeers != 0:
+		return "response-memory-allocated"
+	case ps.OutgoingResponses.TotalPendingAllocations != 0 || ps.OutgoingResponses.NumPeersWithPendingAllocations != 0:
+		return "response-memory-pending"
+	}
+	if g, ok := requestor.(ps_); ok {
+		st := g.PeerState(respPeer).OutgoingState
+		switch {
+		case len(st.RequestStates) != 0:
+			return "requestor-request-table"
+		case len(st.TaskQueueState.Active) != 0 || len(st.TaskQueueState.Pending) != 0:
+			return "requestor-peer-queue"
+		case len(st.Diagnostics()) != 0:
+			return "requestor-diagnostics"
+		}
+	} else {
+		return "no-peerstate-api"
+	}
+	if g, ok := responder.(ps_); ok {
+		st := g.PeerState(reqPeer).IncomingState
+		switch {
+		case len(st.RequestStates) != 0:
+			return "responder-response-table"
+		case len(st.TaskQueueState.Active) != 0 || len(st.TaskQueueState.Pending) != 0:
+			return "responder-peer-queue"
+		case len(st.Diagnostics()) != 0:
+			return "responder-diagnostics"
+		}
+	} else {
+		return "no-peerstate-api"
+	}
+	return ""
+}
+
 func child(o op) (string, error) {
 	ctx, cancel := context.WithCancel(context.Background())
 	defer cancel()
@@ -949,8 +1038,16 @@ func child(o op) (string, error) {
 		return "", err
 	}
 	var cbReq, cbResp cbLog
-	requestor := gsimpl.New(ctx, gsnet.NewFromLibp2pHost(h1), reqDef, gsimpl.PanicCallback(cbReq.cb))
-	responder := gsimpl.New(ctx, gsnet.NewFromLibp2pHost(h2), respDef, gsimpl.PanicCallback(cbResp.cb))
+	reqOpts := []gsimpl.Option{gsimpl.PanicCallback(cbReq.cb)}
+	respOpts := []gsimpl.Option{gsimpl.PanicCallback(cbResp.cb)}
+	if o.lim == "tight" {
+		respOpts = append(respOpts, gsimpl.MaxInProgressIncomingRequests(1), gsimpl.MaxInProgressIncomingRequestsPerPeer(1))
+		if o.side == "requestor" {
+			reqOpts = append(reqOpts, gsimpl.MaxInProgressOutgoingRequests(1))
+		}
+	}
+	requestor := gsimpl.New(ctx, gsnet.NewFromLibp2pHost(h1), reqDef, reqOpts...)
+	responder := gsimpl.New(ctx, gsnet.NewFromLibp2pHost(h2), respDef, respOpts...)
 	if err := requestor.RegisterPersistenceOption("alt", reqOpt); err != nil {
 		return "", err
 	}
@@ -1091,7 +1188,19 @@ func child(o op) (string, error) {
 	}
 	s1, s2 := sibOK(r1, sib1, reqStoreS), sibOK(r2, sib2, reqStoreT)
 	clientComplete := client == "none" && rt.blocks == o.n && reqStoreT.has(target) == o.n
-	line := fmt.Sprintf("fired=%d err=%s cb=%d val=%s sibling=%d", b2i(fired), errKind, match+stray, valField, b2i(s1 && s2))
+	// ---- leak check: wait for both nodes to drain, then nothing may be held any more
+	leakWhat := ""
+	for w := 0; w < 500; w++ {
+		leakWhat = heldResource(requestor, responder, h1.ID(), h2.ID())
+		if leakWhat == "" {
+			break
+		}
+		time.Sleep(10 * time.Millisecond)
+	}
+	line := fmt.Sprintf("fired=%d err=%s cb=%d val=%s sibling=%d late=%d leak=%d", b2i(fired), errKind, match+stray, valField, b2i(s1 && s2), b2i(s2), b2i(leakWhat != ""))
+	if leakWhat != "" {
+		line += " leakwhat=" + leakWhat
+	}
 	line += fmt.Sprintf(" client=%s clientcomplete=%d errtype=%s nerrs=%d targetblocks=%d stored=%d respstatus=%s straycb=%d othersidecb=%d sib1=%d/%d sib2=%d/%d",
 		client, b2i(clientComplete), strings.ReplaceAll(errText, " ", "_"), len(rt.errs), rt.blocks, reqStoreT.has(target), tsText, stray, om+os_, r1.blocks, len(r1.errs), r2.blocks, len(r2.errs))
 	return line, nil
